@@ -796,11 +796,43 @@ std::vector<Aux> collectAux(Session &s) {
     return out;
 }
 
+// "any number of entity handles": the client looks the entities up again and again and keeps every handle (each look-up
+// opens HDF5 objects of its own), so that close() has a few hundred open objects to deal with
+std::vector<Ent> collectMany(Session &s) {
+    std::vector<Ent> many;
+    try {
+        for (int rep = 0; rep < 60 && many.size() < 240; rep++) {
+            size_t before = many.size();
+            for (auto &b : s.f.blocks()) {
+                many.push_back(mk(b));
+                for (auto &x : b.dataArrays()) many.push_back(mk(x));
+                for (auto &x : b.tags()) many.push_back(mk(x));
+                for (auto &x : b.multiTags()) many.push_back(mk(x));
+                for (auto &x : b.sources()) many.push_back(mk(x));
+                for (auto &x : b.groups()) many.push_back(mk(x));
+                for (auto &x : b.dataFrames()) many.push_back(mk(x));
+            }
+            for (auto &x : s.f.sections()) { many.push_back(mk(x)); for (auto &p : x.properties()) many.push_back(mk(p)); }
+            if (many.size() == before) break;
+        }
+    } catch (...) {}
+    return many;
+}
+
 void closeSession(Session &s) {
     std::vector<Aux> aux;
+    std::vector<Ent> many;
     if (s.open) { json pre = observe(s); for (auto &x : pre["issues"]) { std::string m = x.get<std::string>(); if (m.rfind("before close: ", 0) != 0 && s.carried.size() < 10) s.carried.push_back("before close: " + m); }
-                  aux = collectAux(s); }
+                  aux = collectAux(s); many = collectMany(s); }
     s.f.close(); s.open = false;
+    size_t alive = 0;
+    for (auto &e : many) {
+        bool g = false, m = false;
+        try { (void) e.id(); (void) e.name(); } catch (...) { g = true; }
+        try { e.touch(); } catch (...) { m = true; }
+        if (!(g && m)) alive++;
+    }
+    if (alive > 0) s.carried.push_back("after close: " + std::to_string(alive) + " of " + std::to_string(many.size()) + " handles obtained by repeated look-ups still work");
     for (auto &x : aux) {
         bool g = false, m = false;
         try { x.get(); } catch (...) { g = true; }
